@@ -12,7 +12,12 @@ Transcribed from `aiuti/asyncio.py` (after the F6 repair):
 * `__call__`: a key present in `_retention_cache` shares that future (`await shield(fut)`);
   otherwise a new future is created, remembered and queued.  The key is forgotten by a
   done-callback of the *future* (`_forget`): at once if `retention_timeout = 0`, else
-  `retention_timeout` later.  Cancelling a caller only detaches that caller.
+  `retention_timeout` later.  Cancelling a caller only detaches that caller.  (Since fix 2a5879d
+  the lookup also refuses an entry whose retention time has passed and the timer only drops
+  the future it was set up for.  On a loop that gets to run - the machine's standing assumption:
+  every internal event due up to `t` fires before an input at `t` - the timer has fired by then,
+  so `evictK` by key is the same thing; a loop that is *not running* while the clock advances
+  is outside the machine and is exercised by scripted scenarios, DESIGN.md §6.)
 * `_get_next_batch`: the first item opens a batch; items are added while
   `len < max_batch_size` (read at every arrival, so it may be mutated); `batch_timeout` after
   the last arrival the batch is handed over.
@@ -47,7 +52,7 @@ inductive Outcome where
 
 def codeKeyError : Nat := 1      -- `futs.pop(key)` failed
 def codeMissing : Nat := 2       -- `ValueError("Missing result for …")`
-def codeTypeError : Nat := 3     -- `fut.set_exception(StopIteration())` raised `TypeError`: fails every unanswered future
+def codeTypeError : Nat := 3     -- a yielded `StopIteration` instance cannot be raised into a future: its caller gets a `RuntimeError`
 
 abbrev Script := List (Nat × Act)     -- (delay before the action, action)
 
@@ -141,7 +146,7 @@ def behaviourGo (p : Plan) (b : Nat) (ra : Nat) :
         | 1 => [(p.idelay, .yield k (.err (2000 + 100 * k + b)))]
         | 2 => []
         | 3 => [(p.idelay, .yield k (.val k a b)), (p.idelay, .yield k (.val 999 0 0))]
-        | 5 => [(p.idelay, .raise codeTypeError)]     -- yields a `StopIteration` instance: `set_exception` refuses it
+        | 5 => [(p.idelay, .yield k (.err codeTypeError))]   -- yields a `StopIteration` instance: that caller gets a `RuntimeError` wrapping it
         | _ => [(p.idelay, .yield 99 (.val 0 0 0))]
       let (more, seen'') := behaviourGo p b ra rest (j + 1) seen'
       (here ++ more, seen'')
